@@ -13,6 +13,8 @@ open Nstd.Server.C14
 open Nstd.Server.C13 (Outcome SendRes sendOS)
 open Nstd.Generated
 
+attribute [local simp] C14.Flags.union C14.Flags.isZero finter fcompl
+
 /-- `ClientImpl::suspend` (translated) = `C14.suspend` -/
 theorem tr_suspend_eq (opq : Nat → Int) (s : St) (i : Id) (c : ClientS) (hc : s.clients i = some c) (ans : SendRes) (e er : Int) (hard : Option Int) :
     (ServerTr.suspend (P14 i ans e hard) opq ⟨s, er⟩).st = suspend s i := by
